@@ -338,6 +338,7 @@ int main(int argc, char** argv)
         p.endpoints = 4;
         p.allowGarbage = false;
         p.bigSegmentHistories = 12;
+        p.manyEndpoints = 12;
         return rc::gen::exec([p]() {
             Case c;
             c.hist = *range<int>(0, 9) == 0 ? *genLongGapHistory() : *genFrameHistory(p);
